@@ -10,7 +10,6 @@ use crate::pma::{kind_name, Entry, Method, Variant, M};
 use crate::rng::Rng;
 use daachorse::MatchKind;
 use std::sync::atomic::{AtomicU64, Ordering};
-use std::sync::Barrier;
 
 pub fn num_cases(ctx: &Ctx) -> u64 {
     match (ctx.mode, ctx.tier) {
@@ -205,58 +204,100 @@ pub fn run_case(ctx: &mut Ctx, idx: u64) {
         return;
     }
 
-    // (d) concurrent history on one shared automaton
+    // (d) concurrent histories on one shared automaton. Every round uses a *never searched*
+    //     automaton (rebuilt, cloned or restored from bytes — a warmed-up one would hide races in
+    //     lazily initialised state), and the threads are released by a spin flag so that their first
+    //     searches really overlap.
     let threads = if ctx.slow() { 3 } else { *rng.pick(&[2usize, 4, 8, 16]) };
-    let ops_per_thread = if ctx.slow() { 3 } else { rng.range(4, 24) };
-    let plans: Vec<Vec<usize>> = (0..threads).map(|_| (0..ops_per_thread).map(|_| rng.usize_below(ops.len())).collect()).collect();
-    let ticket = AtomicU64::new(0);
-    let barrier = Barrier::new(threads);
-    let shared = &p;
-    let hays = &case.haystacks;
-    let ops_ref = &ops;
-    let results: Vec<(Vec<OpRec>, Vec<Vec<M<u32>>>)> = std::thread::scope(|s| {
-        let handles: Vec<_> = plans
-            .iter()
-            .enumerate()
-            .map(|(t, plan)| {
-                let ticket = &ticket;
-                let barrier = &barrier;
-                s.spawn(move || {
-                    let mut recs = Vec::new();
-                    let mut outs = Vec::new();
-                    barrier.wait();
-                    for &oi in plan {
-                        let (m, hi) = ops_ref[oi];
-                        let start = ticket.fetch_add(1, Ordering::SeqCst);
-                        let (got, _) = shared.search(m, &hays[hi], usize::MAX, loose_budget(hays[hi].len(), ns));
-                        let end = ticket.fetch_add(1, Ordering::SeqCst);
-                        recs.push(OpRec { thread: t, op: oi, start, end });
-                        outs.push(got);
-                    }
-                    (recs, outs)
+    let ops_per_thread = if ctx.slow() { 3 } else { rng.range(2, 12) };
+    let rounds = if ctx.slow() { 1 } else { 4 };
+    let mut all_recs: Vec<OpRec> = Vec::new();
+    for round in 0..rounds {
+        let fresh: crate::pma::Pma<u32> = match round % 3 {
+            0 => match build_case(&case, spec) {
+                Ok(x) => x,
+                Err(_) => return,
+            },
+            1 => p.clone(),
+            _ => unsafe { crate::pma::Pma::<u32>::deserialize(spec.variant, &bytes).0 },
+        };
+        ctx.rep.note("fresh_automaton_sources", ["rebuilt", "cloned", "deserialized"][round % 3]);
+        let plans: Vec<Vec<usize>> = (0..threads).map(|_| (0..ops_per_thread).map(|_| rng.usize_below(ops.len())).collect()).collect();
+        let ticket = AtomicU64::new(0);
+        let ready = AtomicU64::new(0);
+        let go = std::sync::atomic::AtomicBool::new(false);
+        let shared = &fresh;
+        let hays = &case.haystacks;
+        let ops_ref = &ops;
+        let results: Vec<(Vec<OpRec>, Vec<Vec<M<u32>>>)> = std::thread::scope(|s| {
+            let handles: Vec<_> = plans
+                .iter()
+                .enumerate()
+                .map(|(t, plan)| {
+                    let (ticket, ready, go) = (&ticket, &ready, &go);
+                    s.spawn(move || {
+                        let mut recs = Vec::new();
+                        let mut outs = Vec::new();
+                        ready.fetch_add(1, Ordering::SeqCst);
+                        while !go.load(Ordering::Acquire) {
+                            std::hint::spin_loop();
+                        }
+                        for &oi in plan {
+                            let (m, hi) = ops_ref[oi];
+                            let start = ticket.fetch_add(1, Ordering::SeqCst);
+                            let (got, _) = shared.search(m, &hays[hi], usize::MAX, loose_budget(hays[hi].len(), ns));
+                            let end = ticket.fetch_add(1, Ordering::SeqCst);
+                            recs.push(OpRec { thread: t, op: oi, start, end });
+                            outs.push(got);
+                        }
+                        (recs, outs)
+                    })
                 })
-            })
-            .collect();
-        handles.into_iter().map(|h| h.join().expect("harness: worker thread panicked")).collect()
-    });
-    ctx.rep.count("concurrent_histories", 1);
-    let mut all: Vec<&OpRec> = Vec::new();
-    for (recs, outs) in &results {
-        for (r, got) in recs.iter().zip(outs.iter()) {
-            ctx.rep.count("concurrent_ops_compared", 1);
-            if got != &baseline[r.op] {
-                let (m, hi) = ops[r.op];
-                ctx.rep.violation(
-                    "concurrent-history",
-                    format!("{} on a shared automaton returned a different result in thread {} than the sequential search", m.name(), r.thread),
-                    idx,
-                    mismatch_detail(&case, &spec, &case.haystacks[hi], m, got, &baseline[r.op]),
-                );
-                return;
+                .collect();
+            // release everybody at once, when all threads are spinning (bounded wait: on a loaded
+            // machine some threads may not be scheduled yet; then the round is simply less tight)
+            let mut spins = 0u64;
+            while (ready.load(Ordering::SeqCst) as usize) < threads && spins < 50_000_000 {
+                std::hint::spin_loop();
+                spins += 1;
             }
-            all.push(r);
+            go.store(true, Ordering::Release);
+            handles.into_iter().map(|h| h.join().expect("harness: worker thread panicked")).collect()
+        });
+        ctx.rep.count("concurrent_histories", 1);
+        for (recs, outs) in results {
+            for (r, got) in recs.into_iter().zip(outs.into_iter()) {
+                ctx.rep.count("concurrent_ops_compared", 1);
+                if got != baseline[r.op] {
+                    let (m, hi) = ops[r.op];
+                    ctx.rep.violation(
+                        "concurrent-history",
+                        format!(
+                            "{} on a shared, previously unsearched automaton returned a different result in thread {} than the sequential search",
+                            m.name(),
+                            r.thread
+                        ),
+                        idx,
+                        mismatch_detail(&case, &spec, &case.haystacks[hi], m, &got, &baseline[r.op]),
+                    );
+                    return;
+                }
+                let off = 1_000_000 * round as u64;
+                all_recs.push(OpRec { thread: r.thread + 16 * round, op: r.op, start: r.start + off, end: r.end + off });
+            }
+        }
+        let after = fresh.serialize();
+        if after != bytes {
+            ctx.rep.violation(
+                "purity",
+                "concurrent searching modified the shared automaton".into(),
+                idx,
+                diff_detail(&case, "before vs after concurrent searches", &bytes, &after),
+            );
+            return;
         }
     }
+    let mut all: Vec<&OpRec> = all_recs.iter().collect();
     // measure (evidence only): overlapping op pairs of different threads, interleaving signature
     let mut overlapping = 0u64;
     for i in 0..all.len() {
@@ -270,15 +311,6 @@ pub fn run_case(ctx: &mut Ctx, idx: u64) {
     let sig: Vec<u8> = all.iter().map(|r| r.thread as u8).collect();
     ctx.rep.count("overlapping_op_pairs", overlapping);
     ctx.rep.note("interleaving_signatures", &format!("{:016x}", crate::rng::fnv(&sig)));
-    let after = p.serialize();
-    if after != bytes {
-        ctx.rep.violation(
-            "purity",
-            "concurrent searching modified the shared automaton".into(),
-            idx,
-            diff_detail(&case, "before vs after concurrent searches", &bytes, &after),
-        );
-    }
     if nontrivial_perm || overlapping > 0 {
         ctx.rep.nontrivial.insert(case.digest());
         ctx.rep.sample(|| {
